@@ -24,7 +24,7 @@ import (
 var DebugEvents bool
 
 // MaxEvents bounds one run (yields + decisions).
-const MaxEvents = 20000
+const MaxEvents = 300000
 
 var hooksOnce sync.Once
 
@@ -556,7 +556,7 @@ func Execute(spec *Spec, opt Options) *Result {
 	}
 	maxEvents := MaxEvents
 	if AutoYield {
-		maxEvents *= 30
+		maxEvents *= 5
 	}
 	if spec.MaxEvents > 0 {
 		maxEvents = spec.MaxEvents
